@@ -1,10 +1,23 @@
 PROP = dict(
     properties="Properties/C20.v",
     harness_mods=["Harness/C20.v"],
-    runs=[dict(cmd="c20", quick=1500, thorough=20000), dict(cmd="c20sync", quick=100, thorough=3000),
+    runs=[dict(cmd="c20", quick=1500, thorough=20000),
+          dict(cmd="c20sync", quick=100, thorough=3000, timeout=6000),
           dict(cmd="c20race", quick=30, thorough=600, race=True)],
-    trusted_base=["hand-written Gallina models coq/Sync/Queue.v (bqueue.Queue) and coq/Sync/Restore.v (statesync.Module/Pool, mpt.Billet restore), tied by correspondence"],
-    assumptions=[],
-    modelled="",
+    trusted_base=[
+        "hand-written Gallina model coq/Sync/Queue.v of pkg/network/bqueue (lock regions as atomic actions), tied by serialised schedules of the real queue",
+        "hand-written Gallina model coq/Sync/Restore.v of statesync.Module.AddMPTNodes/restoreNode/defineSyncStage, statesync.Pool and the restore part of mpt.Billet, tied by differential runs of the real module",
+        "goroutine-dump based detection of the parked drainer in harness/c20queue.go (runtime.Stack)",
+    ],
+    assumptions=[
+        "block indices do not wrap around uint32; Blocking queue mode (1 s ticker) is not modelled",
+        "hash collision freedom: bytes delivered under a hash of the source trie are that node (genuine_op)",
+        "restarts are clean (Close + reopen): a crash between two flushes is not modelled here (H1, see notes/C20.md)",
+        "ContractStorageBased (NeoFS) synchronisation mode and header/block fetchers are not covered",
+    ],
+    modelled="block queue and MPT-based state restore modelled and proved; Billet's in-memory tree is represented by the pool's (path, hash) pairs; jumpToState, header verification and block storage are exercised by the harness only",
 )
-META = dict(text="", note="")
+META = dict(
+    text="Proved in Coq, for all traces: (queue) for every interleaving of Put (any index, duplication, stale height reading), drainer steps, additions by other sources and Discard, the chain accepts exactly h0+1..height in order, each once; no lost wake-up; at rest the node has reached the highest contiguous block effectively given (window and early-drop premises stated); (state sync, repaired mechanism) for every delivery order/batching/duplication, foreign, undecodable and non-canonical data and restarts at any point, the run never fails, the pool empties exactly when every trie node is stored, then the restored (path, node) pairs are exactly the trie's occurrences; foreign data changes nothing. For the code as it is the two failing classes are exhibited as refuted lemmas: F8 (inline-child node accepted, sync completes with nodes missing) and F38 (restart panics once a node is stored at two paths). Tie: real bqueue.Queue under serialised schedules compared step by step with the model (AddItem attempts, lengths, LastQueued) plus concurrent stress also under -race; real statesync.Module on LevelDB against neotest source chains (random sync points, delivery orders, wrong data, restarts), pool compared with the model after every operation, final state root, storage dump, own trie and lock-step continuation compared with the source. Partial: crash (non-clean) restarts, storage-item sync mode, uint32 wrap-around.",
+    note="Trusted: Coq kernel, the Go harness, ./check; models are hand-written and tied by correspondence. Known findings F8 and F38 are listed until their fixes (fixes/F8-*.diff, fixes/F38-*.diff) are committed.",
+)
